@@ -65,7 +65,7 @@ def k_isreduced(base, chk):
     k.settle(replay)
 
 
-def setter_replay(chk, op, n, spec, accept=lambda b: True):
+def setter_replay(chk, op, n, spec, accept=lambda b: True, extra=None):
     """native replay of a byte-string setter: value mod l, input unmodified, return conventions"""
     from sym import native
     import random
@@ -76,6 +76,22 @@ def setter_replay(chk, op, n, spec, accept=lambda b: True):
         if v < 2**(8 * n):
             cands.append(v.to_bytes(n, "little").hex())
     cands += [bytes(rng.randrange(256) for _ in range(n)).hex() for _ in range(40)]
+    cands = [bytes.fromhex(m).hex() for m in (extra or []) if len(m) == 2 * n] + cands
+    if n == 32:
+        # values around l whose 64-bit words differ from those of l in exactly one word (a comparison that skips or
+        # mis-orders a word shows on these), and words of 0 / all-ones above and below the top word of l
+        lw = [(L >> (64 * i)) & (2**64 - 1) for i in range(4)]
+        for i in range(4):
+            for w_ in (0, 1, lw[i] - 1, lw[i], lw[i] + 1, 2**63, 2**64 - 1):
+                if 0 <= w_ < 2**64:
+                    ws = list(lw)
+                    ws[i] = w_
+                    v = sum(x << (64 * j) for j, x in enumerate(ws))
+                    cands.append(v.to_bytes(32, "little").hex())
+                    for j in range(i):
+                        ws2 = list(ws)
+                        ws2[j] = 0
+                        cands.append(sum(x << (64 * t) for t, x in enumerate(ws2)).to_bytes(32, "little").hex())
     from sym import ptreplay
     for a_ in ptreplay.montgomery_structured(1500):
         cands.append(a_.to_bytes(n, "little").hex())
@@ -139,7 +155,12 @@ def k_setter(base, chk, meth, n, spec_lf, spec_py, accept_py=lambda b: True, can
         chk.fact("Scalar.%s: reject path returns (nil, error), receiver and input unwritten" % meth,
                  p.outcome[1][0] is None and not any(w[0] == "w" and w[1] in (s.obj, boid) for w in p.log), [fname])
     if canonical:
-        chk.soft("Scalar.SetCanonicalBytes: accepts exactly when isReduced (1 accepting + 1 rejecting path)", len(acc) == 1 and len(rej) == 1, [fname])
+        if len(acc) == 1 and len(rej) == 1:
+            chk.soft("Scalar.SetCanonicalBytes: accepts exactly when isReduced (1 accepting + 1 rejecting path)", True, [fname])
+        else:
+            # the body does not decide through isReduced (any more): decide the accept set on the real body in bit-vectors
+            chk.extra.setdefault("bv_accept_set_fallback", []).append("SetCanonicalBytes")
+            canonical_accept_bv(base, chk)
     # preconditions of the fiat functions used (inputs below l), decided per call site
     for i, (what, v, pth) in enumerate(h.st["pre"]):
         t0 = time.time()
@@ -154,6 +175,50 @@ def k_setter(base, chk, meth, n, spec_lf, spec_py, accept_py=lambda b: True, can
                 o.verdict = "violated" if hit else "sat-unreplayed"
         if hit:
             chk.violation("Scalar." + meth, hit["what"], hit)
+
+
+def canonical_accept_bv(base, chk):
+    """SetCanonicalBytes accepts exactly the encodings of values < l, whatever way the body decides it (isReduced on the
+    bytes, a borrow chain on the decoded limbs, ...): the real body is executed in bit-vectors on 32 symbolic bytes with
+    the Montgomery conversion replaced by a havoc (its value contract is C07's); every path is classified by its error
+    result and the solver decides  accepted => value < l  and  rejected => value >= l."""
+    prog = base.prog
+    fname = prog.find("Scalar).SetCanonicalBytes")
+    k = K.BVK(base, chk, fname, label="SetCanonicalBytes [accept set, BV]")
+    sl, bs, boid = k.byte_slice("x", 32)
+
+    def havoc(ex_, path, a):
+        for q in a[1:]:
+            if isinstance(q, X.Ptr):
+                ex_.load(path, q)
+        ex_.store(path, a[0], tuple(z3.BitVec("mont%d_%d" % (i, len(path.log)), 64) for i in range(4)))
+    for nm in ("fiatScalarToMontgomery", "fiatScalarMul"):
+        k.ex.summaries[E + nm] = havoc
+    limbs = [k.bv("s[%d]" % i, 64) for i in range(4)]
+    recv = X.Ptr(k.ex.new_obj(k.path, prog.T(E + "Scalar"), name="s", init=[list(limbs)]))
+    k.ex.deadline = time.time() + 120
+    try:
+        paths = k.run([recv, sl])
+    except X.ExecError as e:
+        chk.add(Ob("SetCanonicalBytes [accept set, BV]: followed within the time budget", "error:%s" % (str(e)[:120],), 0, [fname], "BV"))
+        return
+    finally:
+        k.ex.deadline = None
+    val = K.cat_bytes(bs)
+    bad = [p for p in paths if p.outcome[0] != "ret"]
+    chk.add(Ob("SetCanonicalBytes [accept set, BV]: every path returns (%d paths)" % len(paths), "unsat" if paths and not bad else "sat", 0, [fname], "BV", detail=str([p.outcome for p in bad][:2])))
+    for i, p in enumerate(p for p in paths if p.outcome[0] == "ret"):
+        accepted = p.outcome[1][1] is None
+        if accepted:
+            k.prove(p, "[path %d] accepted => value < l" % i, z3.ULT(val, z3.BitVecVal(L, 256)))
+        else:
+            k.prove(p, "[path %d] rejected => value >= l" % i, z3.UGE(val, z3.BitVecVal(L, 256)))
+            k.prove(p, "[path %d] rejected => receiver and input unwritten" % i, not any(w[0] == "w" and w[1] in (recv.obj, boid) for w in p.log))
+
+    def replay(models, seed):
+        extra = [K.bytes_model_to_hex(m, "x", 32) for m in models]
+        return setter_replay(chk, "SetCanonicalBytes", 32, lambda b: int.from_bytes(b, "little"), lambda b: int.from_bytes(b, "little") < L, extra=extra)
+    k.settle(replay, "Scalar.SetCanonicalBytes")
 
 
 def setter_limbs(base, chk, meth, n, spec_lf, spec_py, accept_py):
